@@ -222,14 +222,14 @@ theorem schedule_independent_counterexample : ¬ schedule_independent_full := by
 /-! ## non-vacuity -/
 
 def exRules : List (Rule Cond Action) :=
-  [⟨"r0", 10, true, .leaf "a" .gt 0, [.set "b" 5]⟩,
-   ⟨"r1", 0, true, .leaf "b" .eq 5, []⟩,
-   ⟨"r2", 10, true, .not (.leaf "zz" .eq 0), []⟩,
-   ⟨"r3", 10, false, .leaf "a" .gt 0, []⟩,
-   ⟨"r4", 10, true, .and (.leaf "a" .gt 0) (.leaf "b" .lt 0), [.set "a" 0]⟩,
-   ⟨"r5", 0, true, .leaf "a" .le 1, []⟩]
+  [⟨"r0", 10, true, .leaf "a" .gt (.int 0), [.set "b" 5]⟩,
+   ⟨"r1", 0, true, .leaf "b" .eq (.int 5), []⟩,
+   ⟨"r2", 10, true, .not (.leaf "zz" .eq (.int 0)), []⟩,
+   ⟨"r3", 10, false, .leaf "a" .gt (.int 0), []⟩,
+   ⟨"r4", 10, true, .and (.leaf "a" .gt (.int 0)) (.leaf "b" .lt (.int 0)), [.set "a" 0]⟩,
+   ⟨"r5", 0, true, .leaf "a" .le (.int 1), []⟩]
 
-def exFacts : Facts := [("a", 1), ("b", 2)]
+def exFacts : Facts := [("a", .int 1), ("b", .int 2)]
 
 def namesOf (r : Except Err (Result Cond Action Facts)) : Option (List (String × Bool) × Nat × Nat) :=
   r.toOption.map (fun x => (x.contexts.map (fun c => (c.rule.name, c.fired)), x.evaluated, x.fired))
@@ -253,5 +253,27 @@ example : allDone (run coreSem [1, 0, 0, 1, 0] (initShared exFacts (chunks 2 (gr
 example : allDone (run coreSem [1, 0, 0, 1] (initShared exFacts (chunks 2 (group exRules 10)))) = false := by
   decide +kernel
 example : levelKeys exRules = [10, 0] := by decide
+
+/-! the typed core's comparison is type-sensitive for `==` / `!=` and numeric (through `to_number`) for the
+ordering operators: constants that *print* alike — `25`, `25.0`, `"25"`; `true`, `"true"` — are different values -/
+def tyFacts : Facts := [("q", .int 25), ("g", .bool true), ("w", .str "25")]
+def tyRules : List (Rule Cond Action) :=
+  [⟨"eq_int", 0, true, .leaf "q" .eq (.int 25), []⟩,
+   ⟨"eq_float", 0, true, .leaf "q" .eq (.num 25), []⟩,
+   ⟨"eq_str", 0, true, .leafRef "q" .eq "25", []⟩,
+   ⟨"ne_float", 0, true, .leaf "q" .ne (.num 25), []⟩,
+   ⟨"ge_float", 0, true, .leaf "q" .ge (.num 25), []⟩,
+   ⟨"flag_bool", 0, true, .leaf "g" .eq (.bool true), []⟩,
+   ⟨"flag_str", 0, true, .leafRef "g" .eq "true", []⟩,
+   ⟨"str_eq_str", 0, true, .leafRef "w" .eq "25", []⟩,
+   ⟨"str_eq_int", 0, true, .leaf "w" .eq (.int 25), []⟩,
+   ⟨"ref_resolved", 0, true, .leafRef "w" .ne "q", []⟩]
+-- one worker holds all ten rules (max_threads = 1): each keeps its own verdict
+example : namesOf (executeParallel coreSem ⟨true, 1, 1⟩ tyRules tyFacts (fun _ => [])) =
+    some ([("eq_int", true), ("eq_float", false), ("eq_str", false), ("ne_float", true), ("ge_float", true),
+           ("flag_bool", true), ("flag_str", false), ("str_eq_str", true), ("str_eq_int", false),
+           ("ref_resolved", true)], 10, 6) := by decide +kernel
+example : Op.eval .le (.str "25") (.int 25) = true ∧ Op.eval .le (.str "true") (.int 25) = false ∧
+    Op.eval .lt (.bool true) (.int 25) = false ∧ Op.eval .gt (.num 3) (.str "-4") = true := by decide +kernel
 
 end C19
